@@ -177,6 +177,8 @@ theorem validate_sound_dict {d : ArrayData} {kw : Nat} {signed : Bool} {value : 
   split at hvals
   · simp at hvals
   · unfold checkBounds at hvals
+    split at hvals
+    · simp at hvals
     rw [errIf_ok] at hvals
     simp only [Bool.not_eq_false'] at hvals
     rw [allBelow_iff] at hvals
@@ -376,6 +378,253 @@ theorem validate_sound_struct_offset0_partial {d : ArrayData} {fields : Fields}
         refine ⟨by simp [hnull f (by simp)], ih (fun g hg => hnull g (List.mem_cons_of_mem _ hg)) cs (by simpa using hlen)⟩
 
 example : validateData ⟨.struct (.cons 0 (.prim 4) true .nil), 3, 0, none, [], [i32zeros 3]⟩ = .ok := by decide
+
+/-- **Typed constructor soundness (DESIGN Th 2) — `GenericByteArray::try_new` over
+`OffsetBuffer::new`** (String/LargeString/Binary/LargeBinary): if the model of the constructor
+accepts, the array it assembles is well-formed. -/
+theorem typedBytes_sound {d : ArrayData} {offs data : List Nat} {large utf8 : Bool}
+    (hb : d.buffers = [offs, data]) (h : typedBytes d large utf8 = .ok) :
+    LocalWF ⟨if utf8 then .utf8 large else .binary large, offs.length / offW large - 1, 0,
+             typedNulls d, [offs, data], []⟩ := by
+  unfold typedBytes at h
+  rw [hb] at h
+  simp only [andThen_ok] at h
+  obtain ⟨h1, h2, h3, h4⟩ := h
+  have hw := offW_pos large
+  obtain ⟨hlen, hget⟩ := scalarEntries_get (bs := offs) (w := offW large) (signed := true) hw
+  generalize hes : scalarEntries offs (offW large) true = es at *
+  -- OffsetBuffer::new
+  have hne : es ≠ [] ∧ 0 ≤ es.headD 0 ∧ monotoneAdj es = true := by
+    unfold offsetBufferNew at h1
+    rcases es with _ | ⟨e0, rest⟩
+    · simp at h1
+    · simp only at h1
+      split at h1
+      · simp at h1
+      · split at h1
+        · rename_i h0 hm; exact ⟨by simp, by simpa using h0, hm⟩
+        · simp at h1
+  obtain ⟨hne, hfirst, hmono⟩ := hne
+  have hn1 : 1 ≤ offs.length / offW large := by
+    rw [← hlen]; cases es with
+    | nil => exact absurd rfl hne
+    | cons _ _ => simp
+  unfold LocalWF
+  refine ⟨?_, ?_⟩
+  · -- validity bitmap
+    unfold NullsOk typedNulls
+    cases hn : d.nulls with
+    | none => simp
+    | some n =>
+      simp only [Option.map_some]
+      rw [errIf_ok] at h4
+      simp only [hn, Option.isSome_some, Bool.true_and, bne_eq_false_iff_eq] at h4
+      unfold typedNullsOk at h2
+      simp only [hn] at h2
+      refine ⟨by rw [h4, hlen], ?_, trivial⟩
+      split at h2
+      · simp at h2
+      · omega
+  · -- offsets and values
+    have pair : ∀ i, i < offs.length / offW large - 1 →
+        ∃ a b : Int, readInt offs (offW large) true i = some a ∧ readInt offs (offW large) true (i + 1) = some b ∧
+          0 ≤ a ∧ a ≤ b ∧ b ≤ es.getLastD 0 ∧ a ∈ es ∧ b ∈ es := by
+      intro i hi
+      obtain ⟨a, ha⟩ := readInt_isSome (bs := offs) (signed := true) hw (show i < offs.length / offW large by omega)
+      obtain ⟨b, hb'⟩ := readInt_isSome (bs := offs) (signed := true) hw (show i + 1 < offs.length / offW large by omega)
+      have ga : es[i]? = some a := by rw [hget i (by omega)]; exact ha
+      have gb : es[i + 1]? = some b := by rw [hget (i + 1) (by omega)]; exact hb'
+      refine ⟨a, b, ha, hb', ?_, monotoneAdj_get es hmono i a b ga gb, (monotoneAdj_bounds es hmono (i + 1) b gb).2,
+        List.mem_of_getElem? ga, List.mem_of_getElem? gb⟩
+      have := (monotoneAdj_bounds es hmono i a ga).1
+      omega
+    cases utf8 with
+    | false =>
+      simp only [Bool.false_eq_true, if_false] at h3 ⊢
+      rw [errIf_ok] at h3
+      have hlast : es.getLastD 0 ≤ (data.length : Int) := by simpa using h3
+      refine ⟨trivial, offs, data, rfl, Or.inr ?_⟩
+      intro i hi
+      obtain ⟨a, b, ha, hb', h0, hab, hbl, _, _⟩ := pair i hi
+      unfold offsetPairOk
+      simp only [Nat.zero_add, ha, hb', decide_eq_true_eq]
+      omega
+    | true =>
+      simp only [if_true] at h3 ⊢
+      rw [errIf_ok] at h3
+      simp only [Bool.not_eq_false', Bool.and_eq_true, List.all_eq_true] at h3
+      obtain ⟨hvalid, hbd⟩ := h3
+      refine ⟨trivial, offs, data, rfl, Or.inr ?_⟩
+      intro i hi
+      obtain ⟨a, b, ha, hb', h0, hab, hbl, hma, hmb⟩ := pair i hi
+      have hba := hbd a hma
+      have hbb := hbd b hmb
+      have hble := isCharBoundary_le hbb
+      constructor
+      · unfold offsetPairOk
+        simp only [Nat.zero_add, ha, hb', decide_eq_true_eq]
+        omega
+      · obtain ⟨v, hs, hvv⟩ := utf8Valid_slice (a := a.toNat) (b := b.toNat) hvalid (by omega) hble
+          (isBoundary_of_isCharBoundary hba) (isBoundary_of_isCharBoundary hbb)
+        unfold utf8SlotOk binValue
+        simp only [Nat.zero_add, ha, hb']
+        have : 0 ≤ a ∧ 0 ≤ b := ⟨h0, by omega⟩
+        simp [this, hs, hvv]
+
+/-- **Typed constructor soundness — `DictionaryArray::try_new(PrimitiveArray::try_new(keys, nulls)?, values)`**:
+if the model accepts, every key at a valid slot addresses a dictionary value. -/
+theorem typedDict_sound {d : ArrayData} {keys : List Nat} {v : ArrayData} {kw : Nat} {signed : Bool}
+    (hk : kw = 1 ∨ kw = 2 ∨ kw = 4 ∨ kw = 8) (hb : d.buffers = [keys]) (hc : d.children = [v])
+    (h : typedDict d kw signed = .ok) :
+    LocalWF ⟨.dict kw signed v.type, keys.length / kw, 0, typedNulls d, [keys], [buildTree v]⟩ := by
+  have hw : 0 < kw := by omega
+  unfold typedDict at h
+  rw [hc, hb] at h
+  simp only [andThen_ok] at h
+  obtain ⟨_, h2, h4, h5⟩ := h
+  obtain ⟨hlen, hget⟩ := scalarEntries_get (bs := keys) (w := kw) (signed := signed) hw
+  have hvlen : (buildTree v).len = v.len ∧ (buildTree v).type = v.type := by
+    cases v; simp [buildTree]
+  unfold LocalWF
+  refine ⟨?_, ?_⟩
+  · unfold NullsOk typedNulls
+    cases hn : d.nulls with
+    | none => simp
+    | some n =>
+      simp only [Option.map_some]
+      rw [errIf_ok] at h4
+      simp only [hn, Option.isSome_some, Bool.true_and, bne_eq_false_iff_eq] at h4
+      unfold typedNullsOk at h2
+      simp only [hn] at h2
+      refine ⟨by rw [h4, hlen], ?_, trivial⟩
+      split at h2
+      · simp at h2
+      · omega
+  · refine ⟨keys, buildTree v, rfl, rfl, hvlen.2, hk, ?_, ?_⟩
+    · simp only [Nat.zero_add]; exact Nat.div_mul_le_self _ _
+    · intro i hi hvalid
+      simp only at hi
+      have hvi : (match d.nulls with
+                  | none => true
+                  | some n => bitAt n.bytes i == some true) = true := by
+        unfold ArrayData.isValid ArrayData.validAt typedNulls at hvalid
+        cases hn : d.nulls with
+        | none => rfl
+        | some n => simpa [hn] using hvalid
+      obtain ⟨k, hk'⟩ := readInt_isSome (bs := keys) (signed := signed) hw hi
+      have gk : (scalarEntries keys kw signed)[i]? = some k := by rw [hget i hi]; exact hk'
+      unfold keyOk
+      simp only [Nat.zero_add, hk', hvlen.1, decide_eq_true_eq]
+      have hmem : i ∈ List.range (scalarEntries keys kw signed).length :=
+        List.mem_range.mpr (by rw [hlen]; exact hi)
+      cases hn : d.nulls with
+      | none =>
+        simp only [hn] at h5
+        split at h5
+        · rename_i hall
+          simp only [beq_iff_eq] at hall
+          have := filter_length_eq _ _ (by rw [hall, List.length_range]) i hmem
+          simp at this
+        · rw [errIf_ok, List.any_eq_false] at h5
+          have := h5 i hmem
+          simp [gk] at this
+          omega
+      | some n =>
+        simp only [hn] at h5 hvi
+        split at h5
+        · rename_i hall
+          simp only [beq_iff_eq] at hall
+          have := filter_length_eq _ _ (by rw [hall, List.length_range]) i hmem
+          simp [hvi] at this
+        · rw [errIf_ok, List.any_eq_false] at h5
+          have := h5 i hmem
+          simp [gk, hvi] at this
+          omega
+
+mutual
+/-- `ArrayData::try_new` applied bottom-up accepts only what `validate_full` accepts on the
+built tree (so the soundness theorems about `validateModel` apply to `try_new` as well) -/
+theorem tryNewRec_validateFull : ∀ (d : ArrayData), tryNewRec d = .ok → validateFull (buildTree d) = .ok
+  | ⟨t, l, o, n, bs, cs⟩, h => by
+    unfold tryNewRec at h
+    simp only [andThen_ok] at h
+    obtain ⟨hk, _, hd⟩ := h
+    unfold buildTree validateFull
+    rw [andThen_ok]
+    refine ⟨?_, tryNewAll_validateFullAll cs hk⟩
+    simpa [buildTree] using hd
+theorem tryNewAll_validateFullAll : ∀ (cs : List ArrayData), tryNewAll cs = .ok → validateFullAll (buildAll cs) = .ok
+  | [], _ => by simp [buildAll, validateFullAll]
+  | c :: cs, h => by
+    unfold tryNewAll at h
+    rw [andThen_ok] at h
+    unfold buildAll validateFullAll
+    rw [andThen_ok]
+    exact ⟨tryNewRec_validateFull c h.1, tryNewAll_validateFullAll cs h.2⟩
+end
+
+/-- a dense union declared `{1: Utf8, 5: Int32}` whose first child is an Int32 array -/
+def wUnionChildType : ArrayData :=
+  ⟨.union true (.cons 1 (.utf8 false) true (.cons 5 (.prim 4) true .nil)), 3, 0, none,
+   [[1, 5, 1], [0,0,0,0, 1,0,0,0, 1,0,0,0]], [i32zeros 2, i32zeros 2]⟩
+
+/-- **`UnionArray::try_new` accepts children of the wrong type** (the constructor never compares
+the child data types with the `UnionFields`): the model of the constructor accepts a layout
+that is not well-formed. -/
+theorem typedUnion_accepts_wrong_child_type :
+    ∃ d, typedModel "union" d = .ok ∧ ¬ WellFormed d :=
+  ⟨wUnionChildType, by decide, by decide⟩
+
+/-- the positive part for `ArrayData::try_new` (bottom-up) itself -/
+theorem tryNew_sound_tree_partial (d : ArrayData) (h : tryNewRec d = .ok) (hc : Covered (buildTree d)) :
+    WellFormed (buildTree d) :=
+  validate_sound_tree_partial _ (tryNewRec_validateFull d h) hc
+
+/-- **Typed constructor soundness — `GenericListArray::try_new` over `OffsetBuffer::new`**
+(List / LargeList): if the model accepts, the list node it assembles satisfies the layout rules
+(the child array itself was built by `ArrayData::try_new`). -/
+theorem typedList_sound {d : ArrayData} {offs : List Nat} {c : ArrayData} {large : Bool} {item : DType}
+    {nullable : Bool} (hb : d.buffers = [offs]) (hc : d.children = [c])
+    (h : typedList d large item nullable = .ok) :
+    LocalWF ⟨.list large item nullable, offs.length / offW large - 1, 0, typedNulls d, [offs], [buildTree c]⟩ := by
+  unfold typedList at h
+  rw [hb, hc] at h
+  simp only [andThen_ok] at h
+  obtain ⟨h1, _, h2, h3, h4, h5, h6⟩ := h
+  obtain ⟨hlen, hn1, hpair⟩ := offsetBufferNew_pairs h1
+  obtain ⟨bt, bl, bn⟩ := buildTree_fields c
+  unfold LocalWF
+  refine ⟨?_, ?_⟩
+  · unfold NullsOk typedNulls
+    cases hn : d.nulls with
+    | none => simp
+    | some n =>
+      simp only [Option.map_some]
+      rw [errIf_ok] at h4
+      simp only [hn, Option.isSome_some, Bool.true_and, bne_eq_false_iff_eq] at h4
+      unfold typedNullsOk at h2
+      simp only [hn] at h2
+      refine ⟨by rw [h4, hlen], ?_, trivial⟩
+      split at h2
+      · simp at h2
+      · omega
+  · rw [errIf_ok] at h3 h5 h6
+    have hlast : (scalarEntries offs (offW large) true).getLastD 0 ≤ (c.len : Int) := by simpa using h3
+    refine ⟨offs, buildTree c, rfl, rfl, ?_, Or.inr ?_, ?_⟩
+    · rw [bt]; simpa using h6
+    · intro i hi
+      obtain ⟨a, b, ha, hb', h0, hab, hbl⟩ := hpair i hi
+      unfold offsetPairOk
+      simp only [Nat.zero_add, ha, hb', decide_eq_true_eq, bl]
+      omega
+    · intro hnn j _
+      subst hnn
+      simp only [Bool.not_false, Bool.true_and] at h5
+      apply isValid_of_nulls_none
+      rw [bn]
+      cases hx : builtNulls c with
+      | none => rfl
+      | some _ => simp [hx] at h5
 
 /-- the executable validator decides the specification predicate (restated for the audit) -/
 theorem wellFormedB_correct (d : ArrayData) : wellFormedB d = true ↔ WellFormed d :=
